@@ -207,7 +207,7 @@ def same_dict(a, b) -> bool:
     return as_set(a) == as_set(b)
 
 
-def replay_transition(t: dict) -> dict:
+def replay_transition(t: dict, read_each: bool = False) -> dict:
     """replay one TLC transition (history h, last call's expected result and post-state); returns findings"""
     U = Universe()
     out = {"c08": [], "c09": [], "c06": [], "drift": []}
@@ -217,6 +217,12 @@ def replay_transition(t: dict) -> dict:
         if last is not None and last[0] == "error":
             failed_before = True   # partial effects of a failing call are not part of any verdict
         last = U.call(c)
+        if read_each:   # the history with every lookup read after every call
+            allr_, rec_ = U.read_all(), U.recompute()
+            for k_ in LOOKUPS:
+                if not same_dict(allr_[k_], rec_[k_]):
+                    out["c08"].append(["lookup differs from recomputation (all lookups read after every call)", k_, allr_[k_], rec_[k_]])
+                    return out
     c = t["h"][-1]
     g = U.graph()
     rec = U.recompute()
